@@ -56,6 +56,7 @@ class ExecutionPlanner:
                     # This task does not need to be executed again, so we do not
                     # traverse further.
                     cached_tasks.append(lt.task)
+                    lt.state = LoweringState.DONE
                     continue
 
                 lt.state = LoweringState.SECOND_VISIT
@@ -65,16 +66,20 @@ class ExecutionPlanner:
                 # list. This ensures we process dependencies in the order they
                 # are listed in the COND file (for the user's convenience).
                 for dep_ident in reversed(lt.task.deps):
-                    if dep_ident in visited:
-                        # Add the dependency relationship, but do not traverse
-                        # its dependencies because we already visited.
-                        dep = visited[dep_ident]
-                        lt.deps.append(dep)
-                        continue
-
-                    dep = LoweringTask.initial(self._ctx.task_index.get_task(dep_ident))
+                    # There must be exactly one `LoweringTask` per task, even
+                    # when multiple tasks depend on it.
+                    dep = visited.get(dep_ident)
+                    if dep is None:
+                        dep = LoweringTask.initial(
+                            self._ctx.task_index.get_task(dep_ident)
+                        )
+                        visited[dep_ident] = dep
                     lt.deps.append(dep)
-                    stack.append(dep)
+                    if dep.state == LoweringState.FIRST_VISIT:
+                        # Not processed yet. It may already be on the stack
+                        # (pushed by a different dependee); the stale entry
+                        # will be ignored when it is popped.
+                        stack.append(dep)
 
             elif lt.state == LoweringState.SECOND_VISIT:
                 # These task types always produce at least one `Operation`.
@@ -155,6 +160,7 @@ class ExecutionPlanner:
                         new_op.add_exe_dep(dep_op)
                         dep_op.add_dep_of(new_op)
                 lt.output_ops.append(new_op)
+                lt.state = LoweringState.DONE
 
                 # If this operation has no dependencies, it is part of
                 # `initial_operations`.
